@@ -577,7 +577,7 @@ impl Sim for SimA {
         ]
     }
     fn default_runs(&self) -> (u64, u64) {
-        (30_000, 2_000_000)
+        (1_500_000, 20_000_000)
     }
 
     fn plan(&self, rng: &mut Rng, sub: usize) -> ScenarioA {
